@@ -21,7 +21,7 @@ structure St where
   pc  : PC
 deriving Repr, DecidableEq
 
-inductive Label | step | cancel | otherExpunge (c : Nat) | otherAppend (c : Nat)
+inductive Label | step | cancel | otherExpunge (c : Nat) | otherAppend (c : Nat) | otherCopyDst (c : Nat)
 deriving Repr, DecidableEq
 
 /-- one MOVE of message `c` -/
@@ -42,6 +42,7 @@ def step (repaired : Bool) (c : Nat) (s : St) : Label → Option St
     | _ => some { s with pc := .cancelled }
   | .otherExpunge x => some { s with src := s.src.filter (· != x) }
   | .otherAppend x => some { s with src := s.src ++ [x] }
+  | .otherCopyDst x => some { s with dst := s.dst ++ [x] }       -- another session copies a message (possibly the very one) into the destination
 
 def run (repaired : Bool) (c : Nat) (s : St) : List Label → Option St
   | [] => some s
